@@ -342,7 +342,13 @@ impl Property for C02 {
                 if malformed {
                     k = checked_items[dch.upto(checked_items.len())];
                     let p = dch.upto(8);
-                    fspec.deviate_at = Some((k + 1, if dch.chance(1, 2) { Deviation::Duplicate(p) } else { Deviation::Drop(p) }));
+                    // (an entry repeated or dropped changes the length of the answer; two entries swapped keep it: the answer is
+                    // then refused part-way, after the entries in front of the first swapped one have been taken)
+                    fspec.deviate_at = Some((k + 1, match dch.upto(3) {
+                        0 => Deviation::Duplicate(p),
+                        1 => Deviation::Drop(p),
+                        _ => Deviation::Swap(p, p + 1 + dch.upto(3)),
+                    }));
                     out.class("malformed-answer-then-more-rows");
                 } else {
                     fspec.fail_at = Some(k + 1); // constructor = call 0, item k = call k + 1
